@@ -23,13 +23,15 @@ def gen_case(ctx: Ctx):
     if rng.random() < 0.3:
         sampling[1] = sampling[0]
     mag = rng.choice([1.0, 10.0, 60.0])
+    t0 = round(rng.uniform(0.5, mag), 3)  # structured pairs: equal and opposite components (sum / difference zero)
     return dict(gpts=gpts, sampling=sampling, energy=float(rng.choice([60e3, 100e3, 200e3, 300e3])),
                 dz=rng.choice([0.5, 2.0, 7.25, -3.0, round(rng.uniform(0.1, 30), 3)]),
-                tilt=[round(rng.uniform(-mag, mag), 3), rng.choice([0.0, round(rng.uniform(-mag, mag), 3)])],
+                tilt=rng.choice([[round(rng.uniform(-mag, mag), 3), rng.choice([0.0, round(rng.uniform(-mag, mag), 3)])],
+                                 [t0, -t0], [t0, t0]]),
                 order=rng.choice([1, 1, 2]), wseed=rng.randint(0, 10 ** 6), precision=rng.choice(["float64", "float64", "float32"]),
                 kind=rng.choice(["shift", "shift", "axes", "planewave", "multislice", "mixed", "mixed", "api", "api"]),
                 base=rng.choice([[0.0, 0.0], [round(rng.uniform(-mag, mag), 3), round(rng.uniform(-mag, mag), 3)],
-                                 [round(rng.uniform(-mag, mag), 3), 0.0], [0.0, round(rng.uniform(-mag, mag), 3)]]),
+                                 [round(rng.uniform(-mag, mag), 3), 0.0], [0.0, round(rng.uniform(-mag, mag), 3)], [t0, -t0], [-t0, t0]]),
                 axes=[rng.choice(["pair", "x", "y", "plain"]) for _ in range(rng.randint(1, 2))],
                 values=[[round(rng.uniform(-mag, mag), 3) for _ in range(4)] for _ in range(2)],
                 api=rng.choice(["x-dist+y-fixed", "x-fixed+y-dist", "pairs", "both-dist"]), builder=rng.choice(["probe", "planewave"]))
